@@ -9,6 +9,7 @@ PROP = {'drive': ['GNames'],
                        'C20_notdef',
                        'C20_keeps_existing',
                        'C20_sources',
+                       'C20_gsub_shape',
                        'C20_stable_order',
                        'C20_stable_again',
                        'C20_install',
@@ -21,12 +22,12 @@ PROP = {'drive': ['GNames'],
  'areas': [('gnames', 1500, 40000)],
  'rule': 'distinct case lines (outlines kind, existing names, cmap, GSUB subtables / names + glyph text / '
          'family + style); non-trivial = at least two glyphs and a cmap or a GSUB subtable',
- 'partial': ['C20_sources states that GSUB-derived names are final and rank between cmap names and '
-             'placeholders, but not the shape of a GSUB-derived name (variant base.N / ligature a_b): that '
-             'shape is checked by correspondence only (stream gnames.make)',
-             'MakeSimple: the rule "a glyph with text gets FromUnicode(text) or the first free .altN" is in '
+ 'partial': ['MakeSimple: the rule "a glyph with text gets FromUnicode(text) or the first free .altN" is in '
              'the model and checked by correspondence (gnames.cffmake), not stated as a theorem; the '
-             'Encoding/ROS/FontMatrices side effects of MakeSimple are not modelled'],
+             'Encoding/ROS/FontMatrices side effects of MakeSimple are not modelled',
+             'Subfamily() is not modelled: gnames.psname gives the model the real Subfamily() string; the direct '
+             'stream gnames.pschars checks the characters of the real PostScriptName() for Width 0..12, '
+             'Weight 0..1100 and all style flags'],
  'modelled_not_verified': ['names.FromUnicode and names.IsValid (module seehuhn.de/go/postscript) are abstract '
                            'parameters: the theorems hold for every function in their place; the harness passes '
                            'the real answers in the case line and re-checks them against the real functions',
